@@ -288,6 +288,82 @@ func genC05(tier, out string, sum *Summary) {
 			}
 		}
 	}
+	// the remainder is exact whatever the size of the quotient (a quotient beyond the range is not computed).
+	// Quotients of thousands of digits are decided here with math/big (the model needs a minute for each; the
+	// thorough tier hands two of them to it as well)
+	for pi, pr := range [][2]string{{"1e6144", "3e-10"}, {"7", "1e-6176"}, {"1e3100", "3e-3100"}, {"7e4000", "2e-4000"}, {"2.5e3200", "1e-3200"}, {"1e6144", "7"}, {"9e6144", "7e-6176"}, {"-1e6144", "-3e-10"}, {"1e40", "3"}, {"1e34", "7"}, {"123456789e6000", "9.7e-100"}, {"-7e4000", "-2e-4000"}, {"5e6100", "3e-6100"}, {"1e200", "3e-200"}, {"7e150", "9e-150"}} {
+		d := map[string]any{"x": json.Number(pr[0]), "y": json.Number(pr[1])}
+		x, _ := new(big.Rat).SetString(pr[0])
+		y, _ := new(big.Rat).SetString(pr[1])
+		q := new(big.Rat).Quo(x, y)
+		qi := new(big.Int).Quo(q.Num(), q.Denom()) // operands of equal sign: truncation is the floor
+		want := new(big.Rat).Sub(x, new(big.Rat).Mul(y, new(big.Rat).SetInt(qi)))
+		small := len(qi.String()) < 500
+		for k, c := range []struct {
+			e   string
+			doc any
+		}{{"x % y", d}, {"`" + pr[0] + "` % `" + pr[1] + "`", nil}, {"to_number(a) % to_number(b)", map[string]any{"a": pr[0], "b": pr[1]}}} {
+			var o Obs
+			if small || (tier == "thorough" && pi < 2 && k == 0) {
+				o = emit("PMod", []string{pr[0], pr[1]}, c.e, c.doc)
+			} else {
+				o = search(c.e, c.doc)
+			}
+			sum.count("remainder-huge-quotient/" + o.Kind)
+			got := (*big.Rat)(nil)
+			if dv, ok := toDec(o.Value); ok && o.Kind == "val" {
+				got, _ = new(big.Rat).SetString(dv.String())
+			}
+			if got == nil || got.Cmp(want) != 0 {
+				sum.direct("remainder", c.e, c.doc, "the exact remainder is "+want.FloatString(12)+" (x - y * floor(x / y)), got "+describe(o))
+			}
+		}
+	}
+	// averages of small integers: every quotient n/d with a small numerator and denominator keeps 34 digits
+	{
+		ds := []int{3, 6, 7, 9, 11, 13}
+		top := 130
+		if tier == "thorough" {
+			ds = []int{2, 3, 4, 5, 6, 7, 8, 9, 10, 11, 12, 13, 14, 17, 19, 23, 60, 63, 64, 97}
+			top = 1100
+		}
+		for _, d := range ds {
+			for n := 1; n <= top; n++ {
+				if n%d == 0 {
+					continue
+				}
+				args := make([]string, d)
+				arr := make([]any, d)
+				for j := range args {
+					args[j] = "0"
+					if j == (n+d)%d {
+						args[j] = strconv.Itoa(n)
+					}
+					arr[j] = json.Number(args[j])
+				}
+				emit("PAvg", args, "avg(@)", arr)
+			}
+			for _, n := range []int{512, 555, 599, 640, 699, 8192, 9999, 65536, 99999} {
+				if tier != "thorough" && d > 7 {
+					continue
+				}
+				args := []string{strconv.Itoa(n)}
+				arr := []any{json.Number(args[0])}
+				for j := 1; j < d; j++ {
+					args = append(args, "0")
+					arr = append(arr, json.Number("0"))
+				}
+				emit("PAvg", args, "avg(@)", arr)
+			}
+		}
+		for _, c := range [][]string{{"64", "0", "0", "0", "0", "0", "0"}, {"10", "20", "30", "1", "2", "3", "1"}, {"0.0268", "0", "0"}, {"6399999999999999999999999999.99", "0"}, {"6399999999999999999999999999.99", "0", "0", "0", "0", "0", "0", "0", "0", "0", "0", "0", "0", "0", "0", "0", "0", "0", "0", "0", "0", "0", "0", "0", "0", "0", "0", "0", "0", "0", "0", "0", "0", "0", "0", "0", "0", "0", "0", "0", "0", "0", "0", "0", "0", "0", "0", "0", "0", "0", "0", "0", "0", "0", "0", "0", "0", "0", "0", "0", "0", "0", "0", "0"}} {
+			arr := make([]any, len(c))
+			for i, x := range c {
+				arr[i] = json.Number(x)
+			}
+			emit("PAvg", c, "avg(@)", arr)
+		}
+	}
 	// division by zero and overflow are errors, never infinities
 	for _, e := range []string{"`1` / `0`", "`0` / `0`", "`-1` / `0.0`", "`1` // `0`", "`1` % `0`", "`9e6144` * `10`", "`-9e6144` * `10`", "`9e6144` + `9e6144`", "`-9e6144` - `9e6144`", "`9e6144` * `-10`", "- `9e6144` * `10`", "`9e3100` * `-9e3100`", "`-1` / `0`", "`-1` // `0`", "`-1` % `0`", "`0` // `0`", "`0` % `0`", "`9e6144` / `1e-100`", "`-9e6144` / `1e-100`", "sum(`[9e6144, 9e6144]`)", "sum(`[-9e6144, -9e6144]`)", "avg(`[9e6144, 9e6144, 9e6144]`) * `3`", "abs(`-9e6144`) * `10`", "`1e-6176` / `1e100`"} {
 		o := search(e, nil)
